@@ -962,6 +962,16 @@ pub struct CrashPlan {
     pub salt: u64,
 }
 
+/// A second instance of a generator started while this one is running: it runs from start to
+/// finish on the same disk right before this run's `at`-th file-system mutation (one preemption).
+#[derive(Clone)]
+pub struct IntruderPlan {
+    /// 0 = generate_layout, 1 = generate_likelysubtags
+    pub gen_id: u8,
+    pub mode: Mode,
+    pub at: u64,
+}
+
 /// what the seam does at a crash point
 #[derive(Clone, Copy, Debug, PartialEq, Eq)]
 pub enum Gate {
@@ -1050,6 +1060,15 @@ pub struct World {
     /// process id of this simulated execution
     pub pid: u32,
     pub epoch: u32,
+    pub intruder: Option<IntruderPlan>,
+    pub intruded: bool,
+    pub intruder_result: Option<Box<crate::sim::RunResult>>,
+    /// files this process holds open for writing right now (by name)
+    pub open_writers: BTreeMap<String, u32>,
+    /// the second instance touched a file this process held open for writing: what happens then
+    /// depends on inode identity, which the simulated disk (files by name) does not model — the
+    /// session is not judged
+    pub company_ambiguous: bool,
 }
 
 thread_local! {
@@ -1143,6 +1162,11 @@ impl World {
             rayon_threads: None,
             pid: 4711,
             epoch: 0,
+            intruder: None,
+            intruded: false,
+            intruder_result: None,
+            open_writers: BTreeMap::new(),
+            company_ambiguous: false,
         }
     }
 
